@@ -116,6 +116,7 @@ package config
 //@   loop 2: invariant#done forall k string :: (k in c.Packages) ==> pkgDone(c.Packages[k])
 //@   loop 2: invariant#mono forall d *Config :: old(allPtrFieldsSet(d)) ==> allPtrFieldsSet(d)
 //@   loop 2: invariant#added[C07] forall j int :: 0 <= j && j < $i && !excluded(parentPkgConfig.Config, subpkgs[j]) ==> (subpkgs[j] in c.Packages)
+//@   assigns c.Packages, fields(PackageConfig), fields(InterfaceConfig), fields(Config), maps(map[string]any), maps(map[string]*InterfaceConfig), fresh
 
 //@ func NewPackageConfig props=C07,C08
 //@   ensures result != nil && result.Config != nil && result.Interfaces != nil && fresh(result) && fresh(result.Config) && fresh(result.Interfaces) && *result.Config == zero(Config)
@@ -137,9 +138,8 @@ package config
 // ---- output path ---------------------------------------------------------------------
 
 //@ func (*Config).FilePath props=C10,C09
-//@   requires c.Dir != nil && c.FileName != nil
-//@   ensures result != nil
-//@   assigns fresh
+//@   ensures result != nil && result == pathlib.NewPath(*c.Dir).Join(*c.FileName).Clean()
+//@   assigns nothing
 
 // ---- C08: merging ----------------------------------------------------------------------
 
@@ -210,11 +210,10 @@ package config
 
 // Bindings (from the field documentation of TemplateData), fixpoint, termination.
 //   render(text, data) stands for text/template Parse+Execute with the function library (assumed deterministic).
-//@ func (*Config).ParseTemplates props=C11
-//@   requires c.ConfigFile != nil && c.StructName != nil && c.Template != nil && c.Dir != nil && c.FileName != nil && c.PkgName != nil && c.TemplateSchema != nil
-//@   requires srcPkg != nil
-//@   requires c.Dir != c.FileName && c.Dir != c.PkgName && c.Dir != c.StructName && c.Dir != c.TemplateSchema && c.FileName != c.PkgName && c.FileName != c.StructName
-//@         && c.FileName != c.TemplateSchema && c.PkgName != c.StructName && c.PkgName != c.TemplateSchema && c.StructName != c.TemplateSchema
+//@ func (*Config).ParseTemplates props=C11,C09
+//   distinct: the five templated parameters are five different strings in memory (mergeConfigs allocates each
+//   parameter separately); the fixpoint statement is made under this hypothesis.
+//@   let distinct = c.Dir != c.FileName && c.Dir != c.PkgName && c.Dir != c.StructName && c.Dir != c.TemplateSchema && c.FileName != c.PkgName && c.FileName != c.StructName && c.FileName != c.TemplateSchema && c.PkgName != c.StructName && c.PkgName != c.TemplateSchema && c.StructName != c.TemplateSchema
 //@   assigns *c.Dir, *c.FileName, *c.PkgName, *c.StructName, *c.TemplateSchema, fresh
 //@   site#data Execute: $1 == box(data)
 //@   site#mock Execute: data.Mock == (iface == nil ? "" : (ast.IsExported(iface.Name) ? "Mock" : "mock"))
@@ -224,13 +223,35 @@ package config
 //@   site#tmpl Execute: data.Template == old(*c.Template) && data.StructName == old(*c.StructName)
 //@   site#configdir Execute: data.ConfigDir == filepath.Dir(old(*c.ConfigFile))
 //@   site#funcs Parse: called("Funcs") >= 1
-//@   returns#fixpoint err == nil ==> render(*c.Dir, data) == *c.Dir && render(*c.FileName, data) == *c.FileName && render(*c.PkgName, data) == *c.PkgName
+//@   returns#fixpoint distinct && err == nil ==> render(*c.Dir, data) == *c.Dir && render(*c.FileName, data) == *c.FileName && render(*c.PkgName, data) == *c.PkgName
 //@         && render(*c.StructName, data) == *c.StructName && render(*c.TemplateSchema, data) == *c.TemplateSchema
 //@   returns#capped i >= 20 && changesMade ==> err != nil
 //@   loop 0: invariant 0 <= i && i <= 20 && templateMap != nil
 //@   loop 0: invariant#ptrs ("dir" in templateMap) && templateMap["dir"] == c.Dir && ("filename" in templateMap) && templateMap["filename"] == c.FileName && ("pkgname" in templateMap) && templateMap["pkgname"] == c.PkgName
 //@         && ("structname" in templateMap) && templateMap["structname"] == c.StructName && ("template-schema" in templateMap) && templateMap["template-schema"] == c.TemplateSchema
 //@   loop 0: invariant#keys forall k string :: (k in templateMap) ==> k == "dir" || k == "filename" || k == "pkgname" || k == "structname" || k == "template-schema"
-//@   loop 0: invariant#fix !changesMade ==> (forall k string :: (k in templateMap) ==> render(*templateMap[k], data) == *templateMap[k])
+//@   loop 0: invariant#fix distinct && !changesMade ==> (forall k string :: (k in templateMap) ==> render(*templateMap[k], data) == *templateMap[k])
 //@   loop 0: decreases 21 - i
-//@   loop 2: invariant#fix !changesMade ==> (forall k string :: (k in templateMap) && $visited[k] ==> render(*templateMap[k], data) == *templateMap[k])
+//@   loop 2: invariant#fix distinct && !changesMade ==> (forall k string :: (k in templateMap) && $visited[k] ==> render(*templateMap[k], data) == *templateMap[k])
+
+// ---- helpers used by the run (C09, C07, C10) ---------------------------------------------------------
+//@ func (*RootConfig).GetPackages props=C09,C07
+//@   ensures#nil err == nil
+//@   ensures#only forall i int :: 0 <= i && i < len(result) ==> (result[i] in c.Packages)
+//@   ensures#all forall k string :: (k in c.Packages) ==> (exists i int :: 0 <= i && i < len(result) && result[i] == k)
+//@   ensures#empty (forall k string :: !(k in c.Packages)) ==> len(result) == 0
+//@   loop 0: invariant#only forall i int :: 0 <= i && i < len(packages) ==> (packages[i] in c.Packages)
+//@   loop 0: invariant#all forall k string :: (k in c.Packages) && $visited[k] ==> (exists i int :: 0 <= i && i < len(packages) && packages[i] == k)
+//@   loop 0: invariant#empty (forall k string :: !$visited[k]) ==> len(packages) == 0
+//@   assigns nothing
+
+// A listed interface gets its own (merged) configuration; an unlisted one a private deep copy of the
+// package's, as its single config entry ("one if there is none"; "never leaks into siblings").
+//@ func (PackageConfig).GetInterfaceConfig props=C07,C08,C09
+//@   requires c.Config != nil
+//@   ensures#listed (interfaceName in c.Interfaces) ==> result == c.Interfaces[interfaceName]
+//@   ensures#unlisted !(interfaceName in c.Interfaces) ==> result != nil && fresh(result) && result.Config != nil && fresh(result.Config) && len(result.Configs) == 1 && result.Configs[0] == result.Config
+//@   ensures#copy !(interfaceName in c.Interfaces) && allPtrFieldsSet(c.Config) ==> allPtrFieldsSet(result.Config)
+//@   assigns fresh
+
+//@ define filePathOf(c *Config) *pathlib.Path = pathlib.NewPath(*c.Dir).Join(*c.FileName).Clean()
